@@ -35,9 +35,9 @@ def ownMatches (dec : Oracle) (s : Service) (M : Bytes) : List Coding :=
 theorem decodeMessage_eq {dec : Oracle} {M : Bytes} (h : NoForeign dec M) (strict : Bool) (s : Service) :
     decodeMessage dec strict s M =
       match ownMatches dec s M with
-      | [] => if strict then .error .decode else .ok none
-      | [co] => .ok (some co)
-      | co :: _ :: _ => if strict then .error .decode else .ok (some co) := by
+      | [] => .error .decode
+      | [co] => .ok co
+      | co :: _ :: _ => if strict then .error .decode else .ok co := by
   unfold decodeMessage ownMatches
   simp only [collectResults_eq h, List.filter_filter]
   have : (fun a => decide (dec a M = Outcome.ok) && (codedConstPrefix (requestPrefix s) a).isPrefixOf M)
@@ -97,7 +97,7 @@ theorem gnrResults_eq {dec : Oracle} {M : Bytes} (h : NoForeign dec M) (rp : Byt
 def perService (dec : Oracle) (strict : Bool) (L : Layer) (M : Bytes) (s : Service) : List Msg :=
   match decodeMessage dec strict s M with
   | .ok co => [(s, co)]
-  | .error _ => (L.gnrs.filter (okFor dec (requestPrefix s) M)).map fun g => (s, some g)
+  | .error _ => (L.gnrs.filter (okFor dec (requestPrefix s) M)).map fun g => (s, g)
 
 theorem decodeMessage_ne_foreign {dec : Oracle} {M : Bytes} (h : NoForeign dec M) (strict : Bool) (s : Service) :
     decodeMessage dec strict s M ≠ .error .foreign := by
@@ -129,7 +129,7 @@ theorem decodeCandidates_eq {dec : Oracle} {M : Bytes} (h : NoForeign dec M) (st
   cases cands.flatMap (perService dec strict L M) <;> simp
 
 theorem mem_flatMap_perService (dec : Oracle) (strict : Bool) (L : Layer) (M : Bytes) (cands : List Service)
-    (s : Service) (c : Option Coding) :
+    (s : Service) (c : Coding) :
     (s, c) ∈ cands.flatMap (perService dec strict L M) ↔ s ∈ cands ∧ (s, c) ∈ perService dec strict L M s := by
   simp only [List.mem_flatMap]
   constructor
@@ -138,7 +138,7 @@ theorem mem_flatMap_perService (dec : Oracle) (strict : Bool) (L : Layer) (M : B
       unfold perService at hm
       split at hm
       · simp at hm; exact hm.1.symm
-      · simp at hm; obtain ⟨_, _, h⟩ := hm; exact h.1
+      · simp at hm; exact hm.2
     subst this
     exact ⟨hs', hm⟩
   · rintro ⟨h1, h2⟩; exact ⟨s, h1, h2⟩
@@ -147,52 +147,90 @@ theorem mem_flatMap_perService (dec : Oracle) (strict : Bool) (L : Layer) (M : B
 
 /-- what is reported for service `s` (strict mode): its unique matching own coding object, or — when the
     service itself does not decode the message uniquely — every matching global negative response -/
-def Interp (dec : Oracle) (L : Layer) (M : Bytes) (s : Service) (c : Option Coding) : Prop :=
-  ∃ co, c = some co ∧ Matches dec s M co ∧
+def Interp (dec : Oracle) (L : Layer) (M : Bytes) (s : Service) (co : Coding) : Prop :=
+  Matches dec s M co ∧
     ((co ∈ ownCodings s ∧ ownMatchCount dec s M = 1) ∨ (co ∈ L.gnrs ∧ ownMatchCount dec s M ≠ 1))
 
 theorem mem_perService_strict {dec : Oracle} {M : Bytes} (h : NoForeign dec M) (L : Layer) (s : Service)
-    (c : Option Coding) :
-    (s, c) ∈ perService dec true L M s ↔ Interp dec L M s c := by
+    (co : Coding) :
+    (s, co) ∈ perService dec true L M s ↔ Interp dec L M s co := by
   unfold perService Interp
   rw [decodeMessage_eq h]
   match hm : ownMatches dec s M with
   | [] =>
     have hc : ownMatchCount dec s M = 0 := by rw [← length_ownMatches, hm]; rfl
-    simp only [if_true, List.mem_map, List.mem_filter, okFor_iff, Prod.mk.injEq, true_and, hc]
+    simp only [List.mem_map, List.mem_filter, okFor_iff, Prod.mk.injEq, true_and, hc]
     constructor
-    · rintro ⟨g, ⟨hg, hmg⟩, rfl⟩; exact ⟨g, rfl, hmg, .inr ⟨hg, by decide⟩⟩
-    · rintro ⟨co, rfl, hmc, (⟨_, h0⟩ | ⟨hg, _⟩)⟩
+    · rintro ⟨g, ⟨hg, hmg⟩, rfl⟩; exact ⟨hmg, .inr ⟨hg, by decide⟩⟩
+    · rintro ⟨hmc, (⟨_, h0⟩ | ⟨hg, _⟩)⟩
       · exact absurd h0 (by decide)
       · exact ⟨co, ⟨hg, hmc⟩, rfl⟩
   | [x] =>
     have hx := (ownMatches_eq_singleton dec s M x).mp hm
     simp only [List.mem_singleton, Prod.mk.injEq, true_and]
     constructor
-    · rintro rfl; exact ⟨x, rfl, hx.2.2, .inl ⟨hx.2.1, hx.1⟩⟩
-    · rintro ⟨co, rfl, hmc, (⟨ho, _⟩ | ⟨_, hne⟩)⟩
+    · rintro rfl; exact ⟨hx.2.2, .inl ⟨hx.2.1, hx.1⟩⟩
+    · rintro ⟨hmc, (⟨ho, _⟩ | ⟨_, hne⟩)⟩
       · have : co ∈ ownMatches dec s M := (mem_ownMatches dec s M co).mpr ⟨ho, hmc⟩
-        rw [hm] at this; simp at this; rw [this]
+        rw [hm] at this; simpa using this
       · exact absurd hx.1 hne
   | x :: y :: r =>
     have hc : ownMatchCount dec s M ≠ 1 := by rw [← length_ownMatches, hm]; simp
     simp only [if_true, List.mem_map, List.mem_filter, okFor_iff, Prod.mk.injEq, true_and]
     constructor
-    · rintro ⟨g, ⟨hg, hmg⟩, rfl⟩; exact ⟨g, rfl, hmg, .inr ⟨hg, hc⟩⟩
-    · rintro ⟨co, rfl, hmc, (⟨_, h1⟩ | ⟨hg, _⟩)⟩
+    · rintro ⟨g, ⟨hg, hmg⟩, rfl⟩; exact ⟨hmg, .inr ⟨hg, hc⟩⟩
+    · rintro ⟨hmc, (⟨_, h1⟩ | ⟨hg, _⟩)⟩
       · exact absurd h1 hc
       · exact ⟨co, ⟨hg, hmc⟩, rfl⟩
 
-/-! ### non-strict mode: one message per candidate, `coding_object=None` when nothing matches -/
+/-! ### non-strict mode: differs from strict mode only when several own coding objects match -/
 
-theorem perService_lenient {dec : Oracle} {M : Bytes} (h : NoForeign dec M) (L : Layer) (s : Service) :
-    perService dec false L M s = [(s, (ownMatches dec s M).head?)] := by
-  unfold perService
+/-- what is reported for service `s` in non-strict mode: the *first* matching own coding object (in the
+    order `decode_message` tries them), or — when there is none — every matching global negative response -/
+def InterpLenient (dec : Oracle) (L : Layer) (M : Bytes) (s : Service) (co : Coding) : Prop :=
+  Matches dec s M co ∧
+    ((ownMatches dec s M).head? = some co ∨ (co ∈ L.gnrs ∧ ownMatchCount dec s M = 0))
+
+theorem mem_perService_lenient {dec : Oracle} {M : Bytes} (h : NoForeign dec M) (L : Layer) (s : Service)
+    (co : Coding) :
+    (s, co) ∈ perService dec false L M s ↔ InterpLenient dec L M s co := by
+  unfold perService InterpLenient
   rw [decodeMessage_eq h]
-  match ownMatches dec s M with
+  have key : ∀ x r, ownMatches dec s M = x :: r →
+      ((s, co) ∈ [(s, x)] ↔ Matches dec s M co ∧
+        ((x :: r).head? = some co ∨ (co ∈ L.gnrs ∧ ownMatchCount dec s M = 0))) := by
+    intro x r hm
+    have hx : x ∈ ownMatches dec s M := by rw [hm]; simp
+    have hc : ownMatchCount dec s M ≠ 0 := by rw [← length_ownMatches, hm]; simp
+    simp only [List.mem_singleton, Prod.mk.injEq, true_and, List.head?_cons, Option.some.injEq]
+    constructor
+    · rintro rfl; exact ⟨((mem_ownMatches dec s M co).mp hx).2, .inl rfl⟩
+    · rintro ⟨_, (h1 | ⟨_, h0⟩)⟩
+      · exact h1.symm
+      · exact absurd h0 hc
+  match hm : ownMatches dec s M with
+  | [] =>
+    have hc : ownMatchCount dec s M = 0 := by rw [← length_ownMatches, hm]; rfl
+    simp only [List.mem_map, List.mem_filter, okFor_iff, Prod.mk.injEq, true_and, hc, List.head?_nil]
+    constructor
+    · rintro ⟨g, ⟨hg, hmg⟩, rfl⟩; exact ⟨hmg, .inr ⟨hg, trivial⟩⟩
+    · rintro ⟨hmc, (h0 | ⟨hg, _⟩)⟩
+      · cases h0
+      · exact ⟨co, ⟨hg, hmc⟩, rfl⟩
+  | [x] => exact key x [] hm
+  | x :: y :: r => exact key x (y :: r) hm
+
+/-- a service with at most one matching own coding object is treated alike in both modes -/
+theorem perService_lenient_eq_strict {dec : Oracle} {M : Bytes} (h : NoForeign dec M) (L : Layer) (s : Service)
+    (hU : ownMatchCount dec s M ≤ 1) : perService dec false L M s = perService dec true L M s := by
+  unfold perService
+  rw [decodeMessage_eq h, decodeMessage_eq h]
+  match hm : ownMatches dec s M with
   | [] => rfl
   | [x] => rfl
-  | x :: y :: r => rfl
+  | x :: y :: r =>
+    rw [← length_ownMatches, hm] at hU
+    simp at hU
 
 /-! ### the services found through the prefix tree, in the vocabulary of the specification -/
 
